@@ -219,7 +219,11 @@ impl FsmExecutor {
         if extension.eq_ignore_ascii_case("scxml") || extension.eq_ignore_ascii_case("xml") {
             #[cfg(feature = "Debug")]
             debug!("Loading FSM from XML {}", uri);
-            sm = scxml_reader::parse_from_uri(uri.to_string(), &self.include_paths);
+            // The reader reports most document errors by panic, keep them away from the calling session thread.
+            sm = std::panic::catch_unwind(std::panic::AssertUnwindSafe(|| {
+                scxml_reader::parse_from_uri(uri.to_string(), &self.include_paths)
+            }))
+            .unwrap_or_else(|_| Err(format!("'{}' is not a valid SCXML document", uri)));
         }
 
         #[cfg(feature = "serializer")]
@@ -230,7 +234,8 @@ impl FsmExecutor {
                 Ok(f) => {
                     let protocol = DefaultProtocolReader::new(BufReader::new(f));
                     let mut reader = FsmReader::new(Box::new(protocol));
-                    reader.read()
+                    std::panic::catch_unwind(std::panic::AssertUnwindSafe(|| reader.read()))
+                        .unwrap_or_else(|_| Err(format!("'{}' is not a valid FSM file", uri)))
                 }
                 Err(err) => Err(err.to_string()),
             }
@@ -275,7 +280,11 @@ impl FsmExecutor {
 
         // Use reader to parse the XML:
         #[cfg(feature = "xml")]
-        let sm = scxml_reader::parse_from_xml_with_includes(xml.to_string(), &self.include_paths);
+        // The reader reports most document errors by panic, keep them away from the calling session thread.
+        let sm = std::panic::catch_unwind(std::panic::AssertUnwindSafe(|| {
+            scxml_reader::parse_from_xml_with_includes(xml.to_string(), &self.include_paths)
+        }))
+        .unwrap_or_else(|_| Err("The content is not a valid SCXML document".to_string()));
         #[cfg(not(feature = "xml"))]
         let sm = Ok(Box::new(Fsm::new()));
 
